@@ -123,6 +123,61 @@ def traffic_cases(ctx, proof):
     return fails, {"traffic_pairs": len(pairs), "traffic_pairs_judged": judged}
 
 
+def conflicting_creates(ctx):
+    """requests that are rejected because they conflict with one that is being served at the same moment: k creates of one name on k
+    different ports released together; every create answered with an error must leave nothing behind - its listen address refuses
+    connections and the listing shows the winner only (conc harness of C16, judged here for 'a rejected request changes nothing')"""
+    import os
+    rng = C.Rng(ctx.seed).fork("C06conc")
+    base = C.free_port_base("c06conc", 40)
+    if not getattr(ctx, "_h_built", False):
+        C.go_build_harness(ctx, "h")
+        ctx._h_built = True
+    h = os.path.join(C.BUILD, "h")
+    cases = []
+    for r in range(3):
+        k = rng.range(4, 8)
+        ps = [base + r * 10 + j for j in range(k)]
+        cases.append({"setup": [], "batch": [{"method": "POST", "path": "/proxies", "ua": "",
+                                              "body": json.dumps({"name": "p", "listen": "127.0.0.1:%d" % ps[j], "upstream": "u:1"})} for j in range(k)],
+                      "probes": ["127.0.0.1:%d" % x for x in ps], "rounds": 25 if ctx.tier == "quick" else 400, "churn": [], "ports": ps})
+    fin, fout = os.path.join(C.BUILD, "c06_conc_in.json"), os.path.join(C.BUILD, "c06_conc_out.json")
+    json.dump({"cases": [{k: v for k, v in c.items() if k != "ports"} for c in cases]}, open(fin, "w"))
+    if os.path.exists(fout):
+        os.remove(fout)
+    rc, out = C.sh([h, "-mode", "conc", "-in", fin, "-out", fout], env=C.GOENV, timeout=600)
+    if rc != 0 or not os.path.exists(fout):
+        return [("crash", "the process crashed during concurrent creates: " + out[-300:], {"kind": "failing-input", "conc": True, "cases": cases})], {}
+    res = json.load(open(fout))
+    fails, rounds = [], 0
+    for c, rds in zip(cases, res):
+        for ri, rd in enumerate(rds):
+            rounds += 1
+            if rd.get("stuck"):
+                continue
+            for j, rq in enumerate(rd["batch"]):
+                addr = "127.0.0.1:%d" % c["ports"][j]
+                if rq["status"] >= 400 and (rd.get("probes") or {}).get(addr):
+                    fails.append(("rejected-create-left-a-listener",
+                                  "round %d: a create of proxy 'p' on %s was answered %d while another create of that name was being served, but %s "
+                                  "accepts connections afterwards (statuses %s); the listing shows %s"
+                                  % (ri, addr, rq["status"], addr, sorted(x["status"] for x in rd["batch"]), rd["final"][:120]),
+                                  {"kind": "failing-input", "conc": True, "case": c, "observed": rd}))
+                    break
+            if fails:
+                break
+        if fails:
+            break
+    return fails, {"concurrent_conflicting_create_rounds": rounds}
+
+
+def side(ctx, proof):
+    f1, c1 = traffic_cases(ctx, proof)
+    f2, c2 = conflicting_creates(ctx)
+    c1.update(c2)
+    return f1 + f2, c1
+
+
 def run(ctx):
     return G.run_api_property(
         ctx, PID, gen_cases, oracle,
@@ -130,12 +185,13 @@ def run(ctx):
         rule="a populated state (2 proxies, 1-3 toxics of random types) followed by 4-25 requests, most of them built to be rejected: "
              "for every struct the decoder targets, bodies valid in all fields but one (either order), wrong shapes, bad names/types/streams, "
              "unknown proxies and toxics, unresolvable addresses; after every answer >= 400 GET /proxies must equal GET /proxies before; "
+             "plus creates of one name on 4-8 different ports released together (the rejected ones must leave no listener); "
              "non-trivial = more than one request; distinct by JSON",
         assumptions=["the configuration shown by GET /proxies includes every toxic's attributes and toxicity, which are the fields the running "
                      "stages read (same object); treatment of traffic: links holding data or a deadline get a rejected toxic update and are compared, "
                      "observation by observation, with the same link run without the request",
                      "exception by design: a 500 of update/populate/reset (listen address cannot be resolved or bound)"],
-        side_findings=traffic_cases)
+        side_findings=side)
 
 
 def replay(ctx, path):
@@ -143,6 +199,14 @@ def replay(ctx, path):
     if rp.get("kind") != "failing-input":
         print("replay file names a broken obligation, not an input:", rp.get("what"))
         return 1
+    if rp.get("conc"):
+        fails, cov = conflicting_creates(ctx)       # schedule dependent: the family is re-run
+        if fails:
+            print("VIOLATION property=%s replay=%s" % (PID, path))
+            print("  what:", fails[0][1])
+            return 1
+        print("replay passes on the current tree (%s)" % cov)
+        return 0
     if rp.get("link"):
         base = {k: v for k, v in rp["case"].items() if k != "ops"}
         r0, r1 = L.run_impl(ctx, [base, rp["case"]], "c06_replay", procs=1)
